@@ -5,8 +5,9 @@ open Lean Nix.Store
 namespace Driver.C20
 
 /-- C20 is decided on the structural (HDF5 graph) model with copies (`Driver.Store2`, shared with C02),
-extended by the two data-frame operations only C20's histories use (`Store/CopyFrames.lean`): creation,
-and `create_data_frame(copy_from=…)` — the latter executed from the *generated* entry-point shape -/
+extended by what only C20's histories need (`Store/CopyFrames.lean`): data-frame creation,
+`create_data_frame(copy_from=…)` — executed from the *generated* entry-point shape — and the object test
+of `SourceLinkContainer.append` (matters only after an id-keeping block copy) -/
 def step (s : Driver.Store2.St) (j : Json) : Driver.Store2.St × Json :=
   match (Driver.jArr j).toList with
   | [.str "create_frame", pj, nm, .str ty] =>
@@ -21,6 +22,14 @@ def step (s : Driver.Store2.St) (j : Json) : Driver.Store2.St × Json :=
       | some k => Driver.Store2.applyS s (copyFrameIntoBlock src s.g dpath k name keep)
       | none => (s, Driver.bad "source path")
     | _, _ => (s, Driver.bad "args")
+  | [.str "append", pj, .str cname, kj] =>
+    match Driver.Store.parsePath pj with
+    | none => (s, Driver.bad "path")
+    | some p =>
+      match openCont s.g p cname, Driver.Store.parseKey s.g kj with
+      | some c, some key => Driver.Store2.applyS s (contAppend20 s.g c key)
+      | none, _ => (s, Driver.bad "container")
+      | _, none => (s, Driver.bad "key")
   | _ => Driver.Store2.step s j
 
 def main : IO Unit := Driver.loop ({} : Driver.Store2.St) step
